@@ -86,7 +86,8 @@ theorem load_ok_inv (valid : List Byte → Bool) (bs : List Byte) (L : Loaded) (
     Crc.verify bs = .ok () ∧ readHeader bs = some L.header ∧ L.header.magic = MECH ∧
     (∃ tbl, optSection bs L.header.constTblOff L.header.constTblLen = .ok tbl) ∧
     optSection bs L.header.constBlobOff L.header.constBlobLen = .ok L.blob ∧
-    (∃ sy, optSection bs L.header.symbolsOff L.header.symbolsLen = .ok sy ∧ readSymbols sy (L.header.symbolsLen / 13) 0 = .ok L.symbols) ∧
+    (∃ sy, optSection bs L.header.symbolsOff L.header.symbolsLen = .ok sy ∧
+      (if L.header.symbolsOff ≠ 0 ∧ L.header.symbolsLen > 0 then readSymbols sy (L.header.symbolsLen / 13) 0 else .ok []) = .ok L.symbols) ∧
     (∃ ib, optSection bs L.header.instrOff L.header.instrLen = .ok ib ∧ decodeInstrs ib.length ib = .ok L.instrs) ∧
     (∃ db, optSection bs L.header.dictOff L.header.dictLen = .ok db ∧ readDict db valid db.length 0 = .ok L.dict) := by
   unfold load at h
